@@ -103,7 +103,8 @@ HOSTS = ["example.com", "example.com:8080", "example.com:", "1.2.3.4", "1.2.3.4:
          "EXAMPLE.com:80", "a-b.test:65535", "localhost:0", "[fe80::1]:1"]
 HNAMES = ["X-Foo", "x-foo-bar", "Accept", "accept", "Cookie", "X_Under", "User-Agent", "Referer", "X-A", "x-a", "If-None-Match"]
 HVALS = ["bar", "1", "text/a", "text/b;q=0.5", "k=v; j=w", "caf\xe9", "a b\tc", "", "W/\"x\"", "a,b"]
-RHN = ["X-A", "x-a", "B", "Set-Cookie", "Cache-Control", "Content-Type", "Content-Length", "Server", "ETag"]
+RHN = ["X-A", "x-a", "B", "Set-Cookie", "Cache-Control", "Content-Type", "Content-Length", "Server", "ETag",
+       "content-type", "CONTENT-TYPE", "server", "SERVER", "Content-type"]
 
 
 def random_trace(args):
@@ -136,7 +137,7 @@ def random_trace(args):
                     ah.append([t2s(nme), t2s(rng.choice(["1", "a=b; Path=/", "no-cache", "text/plain", "mine", "\"v\""]))])
             chunks = [] if code == 304 else [list(bytes(rng.randrange(256) for _b in range(rng.choice([0, 1, 2, 9])))) for _c in range(rng.choice([0, 1, 2, 3]))]
             if code != 304 and rng.random() < 0.2:
-                ah.append([t2s("Content-Length"), t2s(str(sum(len(c) for c in chunks)))])
+                ah.append([t2s(rng.choice(["Content-Length", "content-length", "CONTENT-LENGTH"])), t2s(str(sum(len(c) for c in chunks)))])
             a = {"code": code, "reason": t2s(rng.choice(["OK", "Created", "Not Found", "Oops", "Very Custom Reason"]) if code != 304 else "Not Modified"),
                  "hdrs": ah, "chunks": chunks, "viaWrite": rng.random() < 0.3}
             obs = canon(real.step("serve", [r, a]))
